@@ -336,6 +336,18 @@ def convert_lines(raw_lines):
             if facts:
                 out.append(json.dumps({"ev": "big", "facts": facts}))
             continue
+        if o["ev"] == "batch_big":
+            # 20..60-bit plain moduli: limb arrays, quotient hints for the slot-wise products
+            t = int(o["t"])
+            L = lambda v: [limbs(int(x)) for x in v]
+            ln = len(out) + 1
+            out.append(json.dumps({"ev": "batch_big", "n": o["n"], "t": limbs(t),
+                                   "rt": [{"v": L(r["v"]), "poly": L(r["poly"]), "dec": L(r["dec"])} for r in o["rt"]],
+                                   "pairs": [{"a": L(p["a"]), "b": L(p["b"]), "prod": L(p["prod"]), "sum": L(p["sum"]),
+                                              "h": [limbs(int(x) * int(y) // t) for x, y in zip(p["a"], p["b"])]} for p in o["pairs"]],
+                                   "rot": [{"s": r["s"], "inp": L(r["inp"]), "out": L(r["out"])} for r in o["rot"]]}))
+            index[(ln, 1)] = {"op": "batch_big", "n": o["n"], "t": o["t"]}
+            continue
         if o["ev"] == "batch":
             ln = len(out) + 1
             out.append(json.dumps(o))
